@@ -330,6 +330,60 @@ def run_obligations(obls, texts, unit_dir, jobs=None, log=None):
     return obls
 
 
+def fn_spans(text):
+    """(name_qualifier_free, start_line, end_line, start_idx) of every `fn` item with a body (innermost spans included)."""
+    spans = []
+    for m in re.finditer(r'^[ \t]*(?:pub(?:\([a-z]+\))?\s+)?(?:open spec |closed spec |proof |spec )?fn\s+(\w+)', text, re.M):
+        try:
+            i, j, k = rsx.find_item(text, r'^[ \t]*(?:pub(?:\([a-z]+\))?\s+)?(?:const\s+)?fn\s+%s\b' % re.escape(m.group(1)), m.start(), 'fn')
+        except ExtractError:
+            continue
+        if rsx.line_start(text, i) != rsx.line_start(text, m.start()):
+            continue
+        spans.append((m.group(1), text.count('\n', 0, i) + 1, text.count('\n', 0, k) + 1, rsx.line_start(text, i)))
+    return spans
+
+
+def precheck(texts, unit_dir, max_rounds=4):
+    """Triage of tool limits before any obligation is run: `verus --no-verify` on the base text; when Verus rejects the text
+    because one exec function uses a construct outside its subset (an unsupported std function, float `%`, ...), that function
+    is turned into `external_body` in every text and reported as *undecided* (never as a violation), so that the other
+    functions of the unit stay decidable.  Returns (texts, {fn_name: reason})."""
+    os.makedirs(unit_dir, exist_ok=True)
+    excluded = {}
+    for _ in range(max_rounds):
+        p = os.path.join(unit_dir, 'precheck.rs')
+        with open(p, 'w') as f:
+            f.write(texts['base'])
+        try:
+            r = subprocess.run([VERUS, p, '--no-verify', '--triggers-mode', 'silent'], stdout=subprocess.PIPE, stderr=subprocess.PIPE, text=True,
+                               timeout=600, cwd=unit_dir)
+        except subprocess.TimeoutExpired:
+            return texts, excluded
+        se = r.stderr
+        m = re.search(r'^error(?:\[E\d+\])?: ([^\n]+)\n\s*--> [^\n:]*precheck\.rs:(\d+):', se, re.M)
+        if r.returncode == 0 or not m:
+            return texts, excluded
+        msg, line = m.group(1), int(m.group(2))
+        cands = [sp for sp in fn_spans(texts['base']) if sp[1] <= line <= sp[2]]
+        if not cands:
+            return texts, excluded
+        name, l0, l1, idx = max(cands, key=lambda sp: sp[1])     # innermost
+        head = texts['base'][idx:idx + 400]
+        if 'external_body' in texts['base'][max(0, idx - 200):idx] or re.match(r'\s*(?:pub\s+)?(?:open spec|closed spec|proof|spec) fn', head):
+            return texts, excluded       # the error is in trusted/spec text: a real infrastructure problem
+        first_line = texts['base'][idx:texts['base'].index('\n', idx)]
+        new = {}
+        for k_, t in texts.items():
+            if t.count(first_line) < 1:
+                return texts, excluded
+            pos = t.index(first_line) if t.count(first_line) == 1 else idx
+            new[k_] = t[:pos] + '    #[verifier::external_body] /*precheck: outside the verifier subset*/\n' + t[pos:]
+        texts = new
+        excluded[name] = msg
+    return texts, excluded
+
+
 def scan_assumptions(text):
     """Mechanical scan of the generated unit for anything that is assumption, not proof."""
     found = []
